@@ -194,6 +194,8 @@ def main():
         # ---- the property text
         last_nf = {"fresh": -1, "held": -1}
         last_hb = [0]
+        total_a = (2 * spf + sum(int(c.split(":")[2]) for c in cmd if c.startswith("p:a:"))) if kind == "lib" else \
+                  (int(cmd[5]) + int(cmd[6]) if cmd[1] == "rawwrite" else None)
         for label, fr, he, gr, sz in obs:
             for tag, p in (("fresh", fr), ("held", he)):
                 if p.get("bad") or "openerr" in p:
@@ -214,6 +216,11 @@ def main():
                                      dict(desc, at=label, kind="impl-vs-spec")))
                 last_nf[tag] = max(last_nf[tag], p["nf"])
                 a = p["fields"].get("a")
+                if total_a is not None and p["nf"] * spf > total_a:
+                    spec_bad.append(("%s/%s/%s-nframes-beyond-what-was-written" % (kind, enc, tag),
+                                     "%s reader %s: gd_nframes reports %d frames although the writer writes only %d samples (%d frames) in all" % (
+                                         tag, label, p["nf"], total_a, total_a // spf), dict(desc, at=label, kind="impl-vs-spec")))
+                    continue
                 if p["nf"] > 0:
                     want = [1000 + i for i in range(p["nf"] * spf)]
                     if a is None or a["e"] != 0 or a["v"] != want:
